@@ -2097,8 +2097,8 @@ Proof. vm_compute. repeat split; reflexivity. Qed.
 
 (* Since fix 24799d8 every SetPosition the MsgPack stream reader issues is checked: a refusal ends the call
    in an exception (SkipValueImpl: ParsingError; ReadExtFamilyType, ReadValue(CBinTimestamp), SetPosition:
-   InputOutputError).  [guarded p]: at every SetPosition of program p, the continuation for the answer
-   "refused" returns at once, with one of these two exceptions. *)
+   InputOutputError; since e491e27 SkipValueImpl does not seek).  [guarded p]: at every SetPosition of
+   program p, the continuation for the answer "refused" returns InputOutputError at once. *)
 Definition thr {A} (a : sr A) : Prop := a = QErr EParse \/ a = QIO.
 
 Fixpoint guarded {A} (p : prog (sr A)) : Prop :=
@@ -2108,18 +2108,18 @@ Fixpoint guarded {A} (p : prog (sr A)) : Prop :=
   | Op op k =>
     (forall r, guarded (k r)) /\
     match op with
-    | OSetPos _ => exists a, k (RBool false) = Ret a /\ thr a
+    | OSetPos _ => k (RBool false) = Ret QIO
     | _ => True
     end
   end.
 
 Lemma guarded_pbind {A B} (p : prog (sr A)) (f : sr A -> prog (sr B)) :
-  guarded p -> (forall a, guarded (f a)) -> (forall a, thr a -> exists b, f a = Ret b /\ thr b) ->
+  guarded p -> (forall a, guarded (f a)) -> f QIO = Ret QIO ->
   guarded (pbind p f).
 Proof.
   intros Hp Hf Ht. induction p as [a| |op k IH]; cbn [pbind guarded] in *; [apply Hf | exact I|].
   destruct Hp as [Hk Hop]. split; [intros r; apply IH; apply Hk|].
-  destruct op; try exact I. destruct Hop as [a [Ea Ta]]. rewrite Ea. cbn [pbind]. apply Ht. exact Ta.
+  destruct op; try exact I. rewrite Hop. cbn [pbind]. exact Ht.
 Qed.
 
 Lemma guarded_qbind {A B} (p : prog (sr A)) (f : A -> prog (sr B)) :
@@ -2127,13 +2127,13 @@ Lemma guarded_qbind {A B} (p : prog (sr A)) (f : A -> prog (sr B)) :
 Proof.
   intros Hp Hf. unfold qbind. apply guarded_pbind; [exact Hp | |].
   - intros [a| |e| |]; cbn [guarded]; auto.
-  - intros a [->| ->]; eexists; (split; [reflexivity|]); [left | right]; reflexivity.
+  - reflexivity.
 Qed.
 
 Lemma guarded_pmap {A B} (g : A -> B) (p : prog (sr A)) : guarded p -> guarded (pmap g p).
 Proof.
   intros Hp. unfold pmap. apply guarded_pbind; [exact Hp | intros a; exact I |].
-  intros a [->| ->]; eexists; (split; [reflexivity|]); [left | right]; reflexivity.
+  reflexivity.
 Qed.
 
 Lemma guarded_peek {A} (k : option N -> prog (sr A)) : (forall o, guarded (k o)) -> guarded (peek_byte k).
@@ -2151,7 +2151,7 @@ Proof. intros H. split; [intros r; destruct r; cbn [guarded]; auto | exact I]. Q
 Lemma guarded_is_end {A} (k : bool -> prog (sr A)) : (forall b, guarded (k b)) -> guarded (is_end k).
 Proof. intros H. split; [intros r; destruct r; cbn [guarded]; auto | exact I]. Qed.
 Lemma guarded_set_pos {A} p (k : bool -> prog (sr A)) :
-  (forall b, guarded (k b)) -> (exists a, k false = Ret a /\ thr a) -> guarded (set_position p k).
+  (forall b, guarded (k b)) -> k false = Ret QIO -> guarded (set_position p k).
 Proof. intros H Hf. split; [intros r; destruct r; cbn [guarded]; auto | exact Hf]. Qed.
 
 Lemma guarded_get_value k : guarded (mps_get_value k).
@@ -2200,7 +2200,7 @@ Lemma guarded_handle_mismatch {A} fuel o ty : guarded (@mps_handle_mismatch A fu
 Proof.
   unfold mps_handle_mismatch. match goal with |- guarded (if ?c then _ else _) => destruct c end; [exact I|].
   apply guarded_pbind; [apply guarded_skip_impl | intros a; exact I |].
-  intros a [->| ->]; eexists; (split; [reflexivity|]); [left | right]; reflexivity.
+  reflexivity.
 Qed.
 
 Lemma guarded_read_ext_family : guarded mps_read_ext_family.
@@ -2215,7 +2215,7 @@ Proof.
             | None => Ret (QErr EParse)
             end))).
   { intros off size. apply guarded_read_byte. intros [c|]; [|exact I].
-    apply guarded_set_pos; [intros [|]; exact I|]. eexists. split; [reflexivity | right; reflexivity]. }
+    apply guarded_set_pos; [intros [|]; exact I|]. reflexivity. }
   destruct (negb (m_fixed (byte_meta b) =? 0)); [apply Fin|].
   destruct (negb (m_ext (byte_meta b) =? 0)); [|exact I].
   apply guarded_qbind; [apply guarded_read_ext_size | intros sz; apply Fin].
@@ -2232,7 +2232,7 @@ Lemma guarded_mismatch_via_type {A} fuel o : guarded (@mps_mismatch_via_type A f
 Proof.
   unfold mps_mismatch_via_type. apply guarded_pbind; [apply guarded_read_value_type | |].
   - intros [t| |e| |]; try exact I. apply guarded_handle_mismatch.
-  - intros a [->| ->]; eexists; (split; [reflexivity|]); [left | right]; reflexivity.
+  - reflexivity.
 Qed.
 
 Ltac gd_leaf :=
@@ -2308,8 +2308,8 @@ Proof.
       * apply guarded_qbind; [apply guarded_get_value | intros v; exact I].
       * apply guarded_qbind; [apply guarded_get_value|]. intros sec.
         apply guarded_qbind; [apply guarded_get_value | intros v; exact I].
-    + eexists. split; [reflexivity | right; reflexivity].
-  - intros a [->| ->]; eexists; (split; [reflexivity|]); [left | right]; reflexivity.
+    + reflexivity.
+  - reflexivity.
 Qed.
 
 Lemma guarded_op narrow widen fuel o op : guarded (mps_op narrow widen fuel o op).
@@ -2327,7 +2327,7 @@ Proof.
   - apply guarded_read_ts.
   - apply guarded_read_value_type.
   - apply guarded_skip_impl.
-  - apply guarded_set_pos; [intros b; exact I|]. eexists. split; [reflexivity | right; reflexivity].
+  - apply guarded_set_pos; [intros b; exact I|]. reflexivity.
   - apply guarded_is_end. intros b. exact I.
 Qed.
 
@@ -2370,10 +2370,9 @@ Proof.
     destruct (m_failed m) eqn:F; [apply Local; intros; discriminate|].
     destruct (op_local data s op) eqn:Eloc; [apply Local; intros _; right; reflexivity|].
     destruct op; cbn [op_local] in Eloc; try discriminate Eloc.
-    destruct Gop as [a [Ea Ta]].
     cbn [bsr_step]. pose proof (bsr_set_position_nonlocal K data s p Hs Eloc) as Hb.
     destruct (bsr_set_position K s p) as [b s1]. cbn [fst] in Hb. subst b.
-    rewrite Ea. cbn [interp]. exists a, s1. split; [reflexivity | right; exact Ta].
+    rewrite Gop. cbn [interp]. exists QIO, s1. split; [reflexivity | right; right; reflexivity].
 Qed.
 
 (* ---- sequences and clients ---- *)
@@ -2524,4 +2523,565 @@ Proof.
   destruct (new_rel K HK0' data Hl false) as [HR Hs]. rewrite <- (st_data data) in HR.
   destruct (client_nonseek_steps K data HK Hl Hb narrow widen fuel o Hf c [] data _ (suffix_data data) Hok HR Hs) as [res [s' [E H]]].
   exists res. rewrite E. split; [reflexivity | exact H].
+Qed.
+
+(* ================================================================== non-seekable streams: the class is exact *)
+
+Lemma psf_pbind {A B} K data (p : prog A) (f : A -> prog B) : forall s,
+  prog_seek_free K data (pbind p f) s =
+  prog_seek_free K data p s &&
+  match interp (bsr_step K) p s with Ok (a, s1) => prog_seek_free K data (f a) s1 | Fault => true end.
+Proof.
+  induction p as [a| |op k IH]; intros s; cbn [pbind prog_seek_free interp]; try reflexivity.
+  destruct (bsr_step K s op) as [[r s']|]; [|rewrite !andb_true_r; reflexivity].
+  rewrite IH, andb_assoc. reflexivity.
+Qed.
+
+(* a live reference reader dies only by refusing a SetPosition *)
+Lemma mem_step_dies K data m op r m' : m_failed m = false -> mem_step K data m op r = Some m' ->
+  m_failed m' = true -> exists p, op = OSetPos p /\ r = RBool false.
+Proof.
+  intros F E D. unfold mem_step in E. rewrite F in E.
+  destruct op, r; try discriminate E.
+  all: repeat match type of E with
+       | context [if ?c then _ else _] => destruct c
+       end; try discriminate E; injection E as <-; cbn [m_failed] in D; try congruence.
+  all: try (eexists; split; reflexivity).
+Qed.
+
+(* run a guarded program on the chunked reader over a non-seekable stream: EITHER every SetPosition of the run
+   was local, all answers were accepted by the reference and a wp statement applies, OR one was not and the
+   program returned InputOutputError *)
+Lemma interp_guarded_exact K data : (0 < K)%nat -> fits_streamoff data ->
+  forall (A : Type) (p : prog (sr A)) s m (Q : sr A -> mem -> Prop),
+  (forall m', ~ Q QIO m') ->
+  Rel K data s m -> m_failed m = false -> is_seekable (b_is s) = false -> guarded p -> wp K data p m Q ->
+  exists a s', interp (bsr_step K) p s = Ok (a, s') /\
+    ((prog_seek_free K data p s = true /\ exists m', Q a m' /\ Rel K data s' m' /\ is_seekable (b_is s') = false)
+     \/ (prog_seek_free K data p s = false /\ a = QIO)).
+Proof.
+  intros HK Hl A p s m Q HQ. revert s m.
+  induction p as [a| |op k IH]; intros s m HR F Hs Hg H; cbn [wp interp guarded prog_seek_free] in *.
+  - exists a, s. split; [reflexivity|]. left. split; [reflexivity|]. exists m. auto.
+  - contradiction.
+  - destruct H as [Hw Hk]. destruct Hg as [Gk Gop].
+    destruct (op_local data s op) eqn:Eloc.
+    + destruct (step_refines K HK data Hl s m op HR Hw (fun _ => or_intror Eloc)) as [r [s' [m' [E1 [E2 [R' Sk]]]]]].
+      rewrite E1. cbn [andb].
+      destruct (m_failed m') eqn:F'.
+      * exfalso. destruct (mem_step_dies K data m op r m' F E2 F') as [q [-> ->]].
+        pose proof (Hk _ _ E2) as Hbad. rewrite Gop in Hbad. cbn [wp] in Hbad. exact (HQ _ Hbad).
+      * apply (IH r s' m' R' F'); [congruence | apply Gk | apply Hk; exact E2].
+    + destruct op; cbn [op_local] in Eloc; try discriminate Eloc.
+      cbn [bsr_step andb]. pose proof (bsr_set_position_nonlocal K data s p Hs Eloc) as Hb.
+      destruct (bsr_set_position K s p) as [b s1]. cbn [fst] in Hb. subst b.
+      rewrite Gop. cbn [interp]. exists QIO, s1. split; [reflexivity | right; split; reflexivity].
+Qed.
+
+Lemma post_not_io {A} data (x : rres A) m' : ~ post data x QIO m'.
+Proof. destruct x; cbn [post]; intros H; try discriminate H; destruct H as [H _]; discriminate H. Qed.
+
+Lemma str_seq_no_io narrow widen data o : forall ops d, ~ In AIOErr (str_seq narrow widen data o ops d).
+Proof.
+  induction ops as [|op tl IH]; intros d; cbn [str_seq]; [intros []|].
+  destruct (str_op narrow widen data o op d) as [v r|r|e|]; cbn [In]; intros [H|H]; try discriminate H; try contradiction.
+  - exact (IH r H).
+  - exact (IH r H).
+Qed.
+
+Section Exact.
+  Variable K : nat.
+  Variable data : list N.
+  Hypothesis HK : (8 <= K)%nat.
+  Hypothesis Hl : fits_streamoff data.
+  Hypothesis Hb : bytes_ok data.
+  Variable narrow : N -> option N.
+  Variable widen : N -> N.
+  Variable fuel : nat.
+  Variable o : opts.
+  Hypothesis Hf : (length data < fuel)%nat.
+
+  Lemma HK0e : (0 < K)%nat.
+  Proof. lia. Qed.
+
+  Lemma op_nonseek_exact op d s : Suffix data d -> rop_ok data op = true ->
+    Rel K data s (st data d) -> is_seekable (b_is s) = false ->
+    exists a s', interp (bsr_step K) (mps_op narrow widen fuel o op) s = Ok (a, s') /\
+      ((prog_seek_free K data (mps_op narrow widen fuel o op) s = true /\
+        exists m', post data (str_op narrow widen data o op d) a m' /\ Rel K data s' m' /\ is_seekable (b_is s') = false)
+       \/ (prog_seek_free K data (mps_op narrow widen fuel o op) s = false /\ a = QIO)).
+  Proof.
+    intros HS Hok HR Hs. pose proof (suffix_len K data HK Hl d HS) as Hlen.
+    apply (interp_guarded_exact K data HK0e Hl _ _ s (st data d)); try assumption.
+    - intros m'. apply post_not_io.
+    - reflexivity.
+    - apply guarded_op.
+    - apply wp_op; try assumption. lia.
+  Qed.
+
+  Lemma psf_getpos {A} (k : N -> prog A) r s : Rel K data s (st data r) ->
+    prog_seek_free K data (get_position k) s = prog_seek_free K data (k (N.of_nat (length data - length r))) s.
+  Proof.
+    intros [_ HR]. destruct (HR eq_refl) as [_ [_ [_ P]]]. cbn [st m_pos] in P.
+    cbn [get_position prog_seek_free bsr_step op_local andb]. rewrite <- P. reflexivity.
+  Qed.
+
+  (* the answers are the string reader's exactly when every SetPosition of the run is local; otherwise they are
+     a prefix of them followed by InputOutputError *)
+  Theorem seq_nonseek_exact : forall ops d s, Suffix data d -> forallb (rop_ok data) ops = true ->
+    Rel K data s (st data d) -> is_seekable (b_is s) = false ->
+    exists l s', interp (bsr_step K) (mps_seq narrow widen fuel o ops) s = Ok (l, s') /\
+      ((prog_seek_free K data (mps_seq narrow widen fuel o ops) s = true /\ l = str_seq narrow widen data o ops d)
+       \/ (prog_seek_free K data (mps_seq narrow widen fuel o ops) s = false /\ exists pre, l = pre ++ [AIOErr])).
+  Proof.
+    induction ops as [|op tl IH]; intros d s HS Hok HR Hs.
+    { exists [], s. split; [reflexivity|]. left. split; reflexivity. }
+    cbn [forallb] in Hok. apply andb_true_iff in Hok. destruct Hok as [Hok1 Hok2].
+    cbn [mps_seq str_seq]. rewrite interp_pbind, psf_pbind.
+    destruct (op_nonseek_exact op d s HS Hok1 HR Hs) as [a [s1 [E [[P1 [m' [Hp [R1 S1]]]]|[P1 ->]]]]]; rewrite E, P1; cbn [andb].
+    - destruct (str_op narrow widen data o op d) as [v r|r|e|]; cbn [post] in Hp.
+      + destruct Hp as [-> [-> HSr]]. rewrite (getpos_nonseek K data _ r s1 R1), (psf_getpos _ r s1 R1).
+        rewrite interp_pbind, psf_pbind.
+        destruct (IH r s1 HSr Hok2 R1 S1) as [l [s2 [E2 [[P2 ->]|[P2 [pre ->]]]]]]; rewrite E2, P2; cbn [interp prog_seek_free andb].
+        * eexists _, s2. split; [reflexivity|]. left. split; reflexivity.
+        * eexists _, s2. split; [reflexivity|]. right. split; [reflexivity|]. eexists (_ :: pre). reflexivity.
+      + destruct Hp as [-> [-> HSr]]. rewrite (getpos_nonseek K data _ r s1 R1), (psf_getpos _ r s1 R1).
+        rewrite interp_pbind, psf_pbind.
+        destruct (IH r s1 HSr Hok2 R1 S1) as [l [s2 [E2 [[P2 ->]|[P2 [pre ->]]]]]]; rewrite E2, P2; cbn [interp prog_seek_free andb].
+        * eexists _, s2. split; [reflexivity|]. left. split; reflexivity.
+        * eexists _, s2. split; [reflexivity|]. right. split; [reflexivity|]. eexists (_ :: pre). reflexivity.
+      + subst a. cbn [interp prog_seek_free]. eexists _, s1. split; [reflexivity|]. left. split; reflexivity.
+      + subst a. cbn [interp prog_seek_free]. eexists _, s1. split; [reflexivity|]. left. split; reflexivity.
+    - cbn [interp]. eexists _, s1. split; [reflexivity|]. right. split; [reflexivity|]. exists []. reflexivity.
+  Qed.
+End Exact.
+
+(* C10 on a stream without seek support, exact class: the stream reader's answers are the string reader's IF AND
+   ONLY IF no SetPosition of the run leaves the cached window (nonseek_ok); otherwise they are a prefix of them
+   followed by InputOutputError *)
+Theorem seq_nonseekable_exact K data narrow widen fuel o ops :
+  (8 <= K)%nat -> fits_streamoff data -> bytes_ok data -> (length data < fuel)%nat ->
+  forallb (rop_ok data) ops = true ->
+  (mps_run_bsr narrow widen K (stream_of data false) fuel o ops = Ok (str_run narrow widen data o ops) <->
+   nonseek_ok narrow widen K data fuel o ops = true).
+Proof.
+  intros HK Hl Hb Hf Hok. split; [|apply seq_nonseekable_outside; assumption].
+  intros Heq. unfold mps_run_bsr, str_run, nonseek_ok in *.
+  assert (HK0' : (0 < K)%nat) by lia.
+  destruct (new_rel K HK0' data Hl false) as [HR Hs]. rewrite <- (st_data data) in HR.
+  destruct (seq_nonseek_exact K data HK Hl Hb narrow widen fuel o Hf ops data _ (suffix_data data) Hok HR Hs)
+    as [l [s' [E [[P _]|[P [pre Hpre]]]]]]; [exact P|].
+  exfalso. rewrite E in Heq. injection Heq as Heq.
+  apply (str_seq_no_io narrow widen data o ops data). rewrite <- Heq, Hpre. apply in_or_app. right. left. reflexivity.
+Qed.
+
+Theorem seq_nonseekable_nonlocal K data narrow widen fuel o ops :
+  (8 <= K)%nat -> fits_streamoff data -> bytes_ok data -> (length data < fuel)%nat ->
+  forallb (rop_ok data) ops = true ->
+  nonseek_ok narrow widen K data fuel o ops = false ->
+  exists pre, mps_run_bsr narrow widen K (stream_of data false) fuel o ops = Ok (pre ++ [AIOErr]).
+Proof.
+  intros HK Hl Hb Hf Hok Hns. unfold mps_run_bsr, nonseek_ok in *.
+  assert (HK0' : (0 < K)%nat) by lia.
+  destruct (new_rel K HK0' data Hl false) as [HR Hs]. rewrite <- (st_data data) in HR.
+  destruct (seq_nonseek_exact K data HK Hl Hb narrow widen fuel o Hf ops data _ (suffix_data data) Hok HR Hs)
+    as [l [s' [E [[P _]|[P [pre Hpre]]]]]]; [congruence|].
+  exists pre. rewrite E, Hpre. reflexivity.
+Qed.
+
+(* ================================================================== clients that only read and skip forward *)
+
+(* no SetPosition anywhere in the program *)
+Fixpoint no_setpos {A} (p : prog A) : Prop :=
+  match p with
+  | Ret _ => True
+  | Bad => True
+  | Op op k => (match op with OSetPos _ => False | _ => True end) /\ forall r, no_setpos (k r)
+  end.
+
+Lemma no_setpos_seek_free {A} K data (p : prog A) : no_setpos p -> forall s, prog_seek_free K data p s = true.
+Proof.
+  induction p as [a| |op k IH]; intros H s; cbn [prog_seek_free no_setpos] in *; try reflexivity.
+  destruct H as [Hop Hk]. destruct op; try contradiction; cbn [op_local andb];
+    (destruct (bsr_step K s _) as [[r s']|]; [apply IH; apply Hk | reflexivity]).
+Qed.
+
+Lemma no_setpos_pbind {A B} (p : prog A) (f : A -> prog B) : no_setpos p -> (forall a, no_setpos (f a)) -> no_setpos (pbind p f).
+Proof.
+  intros Hp Hf. induction p as [a| |op k IH]; cbn [pbind no_setpos] in *; [apply Hf | exact I|].
+  destruct Hp as [Hop Hk]. split; [exact Hop | intros r; apply IH; apply Hk].
+Qed.
+
+Lemma no_setpos_qbind {A B} (p : prog (sr A)) (f : A -> prog (sr B)) : no_setpos p -> (forall a, no_setpos (f a)) -> no_setpos (qbind p f).
+Proof. intros Hp Hf. apply no_setpos_pbind; [exact Hp|]. intros [a| |e| |]; cbn [no_setpos]; auto. Qed.
+
+Ltac nsp_prim := split; [exact I | intros r; destruct r; cbn [no_setpos]; auto].
+Lemma no_setpos_peek {A} (k : option N -> prog A) : (forall x, no_setpos (k x)) -> no_setpos (peek_byte k).
+Proof. intros H. nsp_prim. Qed.
+Lemma no_setpos_goto {A} (k : prog A) : no_setpos k -> no_setpos (goto_next k).
+Proof. intros H. nsp_prim. Qed.
+Lemma no_setpos_read_byte {A} (k : option N -> prog A) : (forall x, no_setpos (k x)) -> no_setpos (read_byte k).
+Proof. intros H. nsp_prim. Qed.
+Lemma no_setpos_solid {A} n (k : list N -> prog A) : (forall x, no_setpos (k x)) -> no_setpos (solid_block n k).
+Proof. intros H. nsp_prim. Qed.
+Lemma no_setpos_chunks {A} n (k : list N -> prog A) : (forall x, no_setpos (k x)) -> no_setpos (by_chunks n k).
+Proof. intros H. nsp_prim. Qed.
+Lemma no_setpos_get_pos {A} (k : N -> prog A) : (forall x, no_setpos (k x)) -> no_setpos (get_position k).
+Proof. intros H. nsp_prim. Qed.
+Lemma no_setpos_is_end {A} (k : bool -> prog A) : (forall x, no_setpos (k x)) -> no_setpos (is_end k).
+Proof. intros H. nsp_prim. Qed.
+
+Lemma no_setpos_get_value k : no_setpos (mps_get_value k).
+Proof.
+  unfold mps_get_value. destruct (k =? 1).
+  - apply no_setpos_read_byte. intros x. exact I.
+  - apply no_setpos_solid. intros x. exact I.
+Qed.
+
+Lemma no_setpos_read_ext_size n : no_setpos (mps_read_ext_size n).
+Proof. unfold mps_read_ext_size. destruct ((n =? 1) || (n =? 2) || (n =? 4)); [apply no_setpos_get_value | exact I]. Qed.
+
+Lemma no_setpos_skip_bytes : forall lf n, no_setpos (mps_skip_bytes lf n).
+Proof.
+  induction lf as [|lf IH]; intros n; cbn [mps_skip_bytes]; destruct (n =? 0); try exact I.
+  apply no_setpos_chunks. intros [|x l]; [exact I | apply IH].
+Qed.
+
+Lemma no_setpos_skip_rep step : no_setpos step -> forall g cnt, no_setpos (mps_skip_rep step g cnt).
+Proof.
+  intros Hs. induction g as [|g IH]; intros cnt; cbn [mps_skip_rep]; destruct (cnt =? 0); try exact I.
+  apply no_setpos_qbind; [exact Hs | intros _; apply IH].
+Qed.
+
+(* since e491e27: SkipValueImpl never seeks *)
+Lemma no_setpos_skip_impl lf : forall f, no_setpos (mps_skip_impl lf f).
+Proof.
+  induction f as [|f IH]; [exact I|]. cbn [mps_skip_impl]. apply no_setpos_read_byte. intros [b|]; [|exact I].
+  destruct (vtype_eqb (m_ty (byte_meta b)) TUnknown); [exact I|].
+  apply no_setpos_qbind.
+  - destruct (negb (m_fixed (byte_meta b) =? 0)); [exact I|].
+    destruct (negb (m_ext (byte_meta b) =? 0)); [apply no_setpos_read_ext_size | exact I].
+  - intros ext0. cbv zeta.
+    assert (Ch : forall ext, no_setpos (if ext =? 0 then Ret (QOk tt)
+                  else match m_ty (byte_meta b) with
+                       | TMap => mps_skip_rep (mps_skip_impl lf f) f (2 * ext)
+                       | TArr => mps_skip_rep (mps_skip_impl lf f) f ext
+                       | _ => Ret (QOk tt)
+                       end)).
+    { intros ext. destruct (ext =? 0); [exact I|].
+      destruct (m_ty (byte_meta b)); try exact I; apply no_setpos_skip_rep; exact IH. }
+    match goal with |- no_setpos (if ?c then _ else _) => destruct c end; [apply Ch|].
+    apply no_setpos_qbind; [apply no_setpos_skip_bytes|]. intros [|]; [apply Ch | exact I].
+Qed.
+
+Lemma no_setpos_handle_mismatch {A} fuel o ty : no_setpos (@mps_handle_mismatch A fuel o ty).
+Proof.
+  unfold mps_handle_mismatch. match goal with |- no_setpos (if ?c then _ else _) => destruct c end; [exact I|].
+  apply no_setpos_pbind; [apply no_setpos_skip_impl | intros a; exact I].
+Qed.
+
+Lemma no_setpos_read_int fuel o t : no_setpos (mps_read_int fuel o t).
+Proof.
+  unfold mps_read_int. apply no_setpos_peek. intros [b|]; [|exact I]. cbv zeta.
+  repeat match goal with |- no_setpos (if ?c then _ else _) => destruct c end.
+  all: first [ apply no_setpos_handle_mismatch
+             | apply no_setpos_goto; first [exact I | apply no_setpos_qbind; [apply no_setpos_get_value | intros v; exact I]] ].
+Qed.
+
+Lemma no_setpos_read_nil fuel o : no_setpos (mps_read_nil fuel o).
+Proof.
+  unfold mps_read_nil. apply no_setpos_peek. intros [b|]; [|exact I].
+  destruct (b =? 0xC0); [apply no_setpos_goto; exact I | apply no_setpos_handle_mismatch].
+Qed.
+
+(* the operations that never look ahead into an ext header and never seek: every integer / bool target, nil,
+   ReadBinary, SkipValue, IsEnd *)
+Definition forward_op (op : rop) : bool :=
+  match op with RdInt _ | RdNil | RdByte | RdSkip | RdIsEnd => true | _ => false end.
+
+Lemma no_setpos_forward_op narrow widen fuel o op : forward_op op = true -> no_setpos (mps_op narrow widen fuel o op).
+Proof.
+  destruct op; cbn [forward_op]; try discriminate; intros _; cbn [mps_op]; unfold pmap.
+  - apply no_setpos_pbind; [apply no_setpos_read_int | intros a; exact I].
+  - apply no_setpos_pbind; [apply no_setpos_read_nil | intros a; exact I].
+  - apply no_setpos_pbind; [|intros a; exact I]. unfold mps_read_binary. apply no_setpos_read_byte. intros x. exact I.
+  - apply no_setpos_pbind; [apply no_setpos_skip_impl | intros a; exact I].
+  - apply no_setpos_is_end. intros b. exact I.
+Qed.
+
+Lemma no_setpos_forward_seq narrow widen fuel o : forall ops, forallb forward_op ops = true ->
+  no_setpos (mps_seq narrow widen fuel o ops).
+Proof.
+  induction ops as [|op tl IH]; intros H; [exact I|]. cbn [forallb] in H. apply andb_true_iff in H. destruct H as [H1 H2].
+  cbn [mps_seq]. apply no_setpos_pbind; [apply no_setpos_forward_op; exact H1|].
+  intros [v| |e| |]; try exact I; apply no_setpos_get_pos; intros p;
+    (apply no_setpos_pbind; [apply IH; exact H2 | intros rest; exact I]).
+Qed.
+
+Lemma forward_rop_ok data : forall ops, forallb forward_op ops = true -> forallb (rop_ok data) ops = true.
+Proof.
+  induction ops as [|op tl IH]; intros H; [reflexivity|]. cbn [forallb] in *. apply andb_true_iff in H. destruct H as [H1 H2].
+  rewrite (IH H2), andb_true_r. destruct op; try reflexivity; discriminate H1.
+Qed.
+
+(* C10 on a stream without seek support: a client that only reads integers / bools / nil / binary bytes, skips
+   values and asks IsEnd gets exactly the memory reader's answers — on every byte string, every chunk size >= 8 *)
+Theorem forward_nonseekable_equals_memory K data narrow widen fuel o ops :
+  (8 <= K)%nat -> fits_streamoff data -> bytes_ok data -> (length data < fuel)%nat ->
+  forallb forward_op ops = true ->
+  mps_run_bsr narrow widen K (stream_of data false) fuel o ops = Ok (str_run narrow widen data o ops).
+Proof.
+  intros HK Hl Hb Hf Hfw. apply seq_nonseekable_outside; try assumption.
+  - apply forward_rop_ok. exact Hfw.
+  - unfold nonseek_ok. apply no_setpos_seek_free. apply no_setpos_forward_seq. exact Hfw.
+Qed.
+
+(* ================================================================== clients whose look-ahead never meets an ext value *)
+
+(* ReadValue(float / double / string_view / CBinTimestamp), ReadArraySize / ReadMapSize / ReadBinarySize and
+   ReadValueType look at an ext header (and seek back) only when the value in front of them IS of the ext
+   family.  [nsp_peek b0 p]: program p issues no SetPosition provided PeekByte answers b0 until something
+   is consumed. *)
+Fixpoint nsp_peek {A} (b0 : option N) (p : prog A) : Prop :=
+  match p with
+  | Ret _ => True
+  | Bad => True
+  | Op op k =>
+    match op with
+    | OPeek => nsp_peek b0 (k (RByte b0))
+    | OSetPos _ => False
+    | _ => forall r, no_setpos (k r)
+    end
+  end.
+
+Lemma no_setpos_nsp_peek {A} b0 (p : prog A) : no_setpos p -> nsp_peek b0 p.
+Proof.
+  induction p as [a| |op k IH]; intros H; cbn [nsp_peek no_setpos] in *; try exact I.
+  destruct H as [Hop Hk]. destruct op; try contradiction; try exact Hk. apply IH. apply Hk.
+Qed.
+
+Lemma nsp_peek_pbind {A B} b0 (p : prog A) (f : A -> prog B) :
+  nsp_peek b0 p -> (forall a, no_setpos (f a)) -> nsp_peek b0 (pbind p f).
+Proof.
+  intros Hp Hf. induction p as [a| |op k IH]; cbn [pbind nsp_peek] in *.
+  - apply no_setpos_nsp_peek. apply Hf.
+  - exact I.
+  - destruct op; try contradiction; try (intros r; apply no_setpos_pbind; [apply Hp | exact Hf]).
+    apply IH. exact Hp.
+Qed.
+
+Definition not_ext (b0 : option N) : Prop :=
+  match b0 with Some b => vtype_eqb (m_ty (byte_meta b)) TExt = false | None => True end.
+
+Lemma nsp_read_value_type b0 : not_ext b0 -> nsp_peek b0 mps_read_value_type.
+Proof.
+  intros H. unfold mps_read_value_type. cbn [peek_byte nsp_peek]. destruct b0 as [b|]; [|exact I].
+  cbn [not_ext] in H. rewrite H. exact I.
+Qed.
+
+Lemma nsp_mismatch_via_type {A} b0 fuel o : not_ext b0 -> nsp_peek b0 (@mps_mismatch_via_type A fuel o).
+Proof.
+  intros H. unfold mps_mismatch_via_type. apply nsp_peek_pbind; [apply nsp_read_value_type; exact H|].
+  intros [t| |e| |]; try exact I. apply no_setpos_handle_mismatch.
+Qed.
+
+Lemma no_setpos_read_chunks : forall fuel n acc, no_setpos (mps_read_chunks fuel n acc).
+Proof.
+  induction fuel as [|fuel IH]; intros n acc; cbn [mps_read_chunks]; destruct (n =? 0); try exact I.
+  apply no_setpos_chunks. intros [|x l]; [exact I | apply IH].
+Qed.
+
+Ltac nsp_branches :=
+  repeat match goal with |- nsp_peek _ (if ?c then _ else _) => destruct c end;
+  first [ apply nsp_mismatch_via_type; assumption
+        | apply no_setpos_nsp_peek; apply no_setpos_goto;
+          first [ exact I
+                | apply no_setpos_get_value
+                | apply no_setpos_qbind; [first [apply no_setpos_get_value | exact I] | intros ?; first [exact I | apply no_setpos_read_chunks]] ] ].
+
+Lemma nsp_read_f32 narrow b0 fuel o : not_ext b0 -> nsp_peek b0 (mps_read_f32 narrow fuel o).
+Proof. intros H. unfold mps_read_f32. cbn [peek_byte nsp_peek]. destruct b0 as [b|]; [|exact I]. nsp_branches. Qed.
+
+Lemma nsp_read_f64 widen b0 fuel o : not_ext b0 -> nsp_peek b0 (mps_read_f64 widen fuel o).
+Proof. intros H. unfold mps_read_f64. cbn [peek_byte nsp_peek]. destruct b0 as [b|]; [|exact I]. nsp_branches. Qed.
+
+Lemma nsp_read_str b0 fuel o : not_ext b0 -> nsp_peek b0 (mps_read_str fuel o).
+Proof. intros H. unfold mps_read_str. cbn [peek_byte nsp_peek]. destruct b0 as [b|]; [|exact I]. cbv zeta. nsp_branches. Qed.
+
+Lemma nsp_read_size b0 fuel o x y z : not_ext b0 -> nsp_peek b0 (mps_read_size fuel o x y z).
+Proof. intros H. unfold mps_read_size. cbn [peek_byte nsp_peek]. destruct b0 as [b|]; [|exact I]. nsp_branches. Qed.
+
+Lemma nsp_read_bin_size b0 fuel o : not_ext b0 -> nsp_peek b0 (mps_read_bin_size fuel o).
+Proof. intros H. unfold mps_read_bin_size. cbn [peek_byte nsp_peek]. destruct b0 as [b|]; [|exact I]. nsp_branches. Qed.
+
+Lemma nsp_read_ts b0 fuel o : not_ext b0 -> nsp_peek b0 (mps_read_ts fuel o).
+Proof.
+  intros H. unfold mps_read_ts, mps_read_ext_family. cbn [peek_byte pbind nsp_peek]. destruct b0 as [b|]; [|exact I].
+  cbn [not_ext] in H. rewrite H. cbn [negb pbind]. apply nsp_mismatch_via_type. exact H.
+Qed.
+
+(* forward_op, or a look-ahead operation *)
+Definition lookahead_op (op : rop) : bool :=
+  match op with RdF32 | RdF64 | RdStr | RdArr | RdMap | RdBin | RdTs | RdType => true | _ => false end.
+
+Lemma nsp_op narrow widen fuel o op b0 : forward_op op = true \/ (lookahead_op op = true /\ not_ext b0) ->
+  nsp_peek b0 (mps_op narrow widen fuel o op).
+Proof.
+  intros [H|[H Hn]].
+  - apply no_setpos_nsp_peek. apply no_setpos_forward_op. exact H.
+  - destruct op; cbn [lookahead_op] in H; try discriminate H; cbn [mps_op]; unfold pmap;
+      (apply nsp_peek_pbind; [|intros a; exact I]).
+    + apply nsp_read_f32. exact Hn.
+    + apply nsp_read_f64. exact Hn.
+    + apply nsp_read_str. exact Hn.
+    + apply nsp_read_size. exact Hn.
+    + apply nsp_read_size. exact Hn.
+    + apply nsp_read_bin_size. exact Hn.
+    + apply nsp_read_ts. exact Hn.
+    + apply nsp_read_value_type. exact Hn.
+Qed.
+
+(* on the chunked reader standing at suffix d, PeekByte answers the first byte of d and moves nothing *)
+Lemma nsp_peek_seek_free K data : (8 <= K)%nat -> fits_streamoff data ->
+  forall (A : Type) (p : prog A) d s, Suffix data d -> Rel K data s (st data d) ->
+  nsp_peek (hd_error d) p -> prog_seek_free K data p s = true.
+Proof.
+  intros HK Hl A. assert (HK0' : (0 < K)%nat) by lia.
+  induction p as [a| |op k IH]; intros d s HS HR H; cbn [prog_seek_free nsp_peek] in *; try reflexivity.
+  destruct op; try contradiction; cbn [op_local andb];
+    try (destruct (bsr_step K s _) as [[r s']|]; [apply no_setpos_seek_free; apply H | reflexivity]).
+  (* OPeek *)
+  destruct (step_refines K HK0' data Hl s (st data d) OPeek HR I (fun _ => or_intror eq_refl)) as [r [s' [m' [E1 [E2 [R' _]]]]]].
+  rewrite E1. unfold mem_step in E2. cbn [st m_failed m_pos] in E2.
+  destruct r; try discriminate E2.
+  destruct (opt_eqb o (nth_error data (length data - length d))) eqn:Eo; [|discriminate E2].
+  injection E2 as <-. apply opt_eqb_eq in Eo. rewrite (suffix_nth K data HK Hl d HS) in Eo. subst o.
+  apply (IH _ d s' HS R' H).
+Qed.
+
+(* the class, decided on the string reader's run, independent of the chunk size and of the stream: no SetPosition
+   call, and no look-ahead call in front of an ext-family value *)
+Definition first_not_ext (d : list N) : bool :=
+  match d with b :: _ => negb (vtype_eqb (m_ty (byte_meta b)) TExt) | [] => true end.
+
+Fixpoint lookahead_free (narrow : N -> option N) (widen : N -> N) (data : list N) (o : opts) (ops : list rop) (d : list N) : bool :=
+  match ops with
+  | [] => true
+  | op :: tl =>
+    (forward_op op || (lookahead_op op && first_not_ext d)) &&
+    match str_op narrow widen data o op d with
+    | ROk _ r => lookahead_free narrow widen data o tl r
+    | RNot r => lookahead_free narrow widen data o tl r
+    | _ => true
+    end
+  end.
+
+Lemma lookahead_rop_ok op : forward_op op || lookahead_op op = true -> forall data, rop_ok data op = true.
+Proof. destruct op; cbn; intros H data; try reflexivity; discriminate H. Qed.
+
+Section Look.
+  Variable K : nat.
+  Variable data : list N.
+  Hypothesis HK : (8 <= K)%nat.
+  Hypothesis Hl : fits_streamoff data.
+  Hypothesis Hb : bytes_ok data.
+  Variable narrow : N -> option N.
+  Variable widen : N -> N.
+  Variable fuel : nat.
+  Variable o : opts.
+  Hypothesis Hf : (length data < fuel)%nat.
+
+  Theorem lookahead_free_steps : forall ops d s, Suffix data d ->
+    lookahead_free narrow widen data o ops d = true ->
+    Rel K data s (st data d) -> is_seekable (b_is s) = false ->
+    prog_seek_free K data (mps_seq narrow widen fuel o ops) s = true.
+  Proof.
+    induction ops as [|op tl IH]; intros d s HS Hla HR Hs; [reflexivity|].
+    cbn [lookahead_free] in Hla. apply andb_true_iff in Hla. destruct Hla as [Hop Hrest].
+    assert (Hok : rop_ok data op = true).
+    { apply lookahead_rop_ok. apply orb_true_iff in Hop. destruct Hop as [H|H]; [rewrite H; reflexivity|].
+      apply andb_true_iff in H. destruct H as [H _]. rewrite H. apply orb_true_r. }
+    assert (Hnsp : prog_seek_free K data (mps_op narrow widen fuel o op) s = true).
+    { apply (nsp_peek_seek_free K data HK Hl _ _ d s HS HR). apply nsp_op.
+      apply orb_true_iff in Hop. destruct Hop as [H|H]; [left; exact H|]. right.
+      apply andb_true_iff in H. destruct H as [H1 H2]. split; [exact H1|].
+      destruct d as [|b r]; cbn [hd_error not_ext first_not_ext] in *; [exact I|]. apply negb_true_iff. exact H2. }
+    cbn [mps_seq]. rewrite psf_pbind, Hnsp. cbn [andb].
+    destruct (op_nonseek_exact K data HK Hl Hb narrow widen fuel o Hf op d s HS Hok HR Hs)
+      as [a [s1 [E [[_ [m' [Hp [R1 S1]]]]|[P1 _]]]]]; [|congruence].
+    rewrite E. revert Hrest Hp. destruct (str_op narrow widen data o op d) as [v r|r|e|]; intros Hrest Hp; cbn [post] in Hp.
+    - destruct Hp as [-> [-> HSr]]. rewrite (psf_getpos K data _ r s1 R1), psf_pbind.
+      rewrite (IH r s1 HSr Hrest R1 S1). cbn [andb].
+      destruct (interp (bsr_step K) (mps_seq narrow widen fuel o tl) s1) as [[l s2]|]; reflexivity.
+    - destruct Hp as [-> [-> HSr]]. rewrite (psf_getpos K data _ r s1 R1), psf_pbind.
+      rewrite (IH r s1 HSr Hrest R1 S1). cbn [andb].
+      destruct (interp (bsr_step K) (mps_seq narrow widen fuel o tl) s1) as [[l s2]|]; reflexivity.
+    - subst a. reflexivity.
+    - subst a. reflexivity.
+  Qed.
+End Look.
+
+(* C10 on a stream without seek support: a client that never calls SetPosition and whose look-ahead calls
+   (ReadValueType, ReadValue(float / double / string_view / CBinTimestamp), ReadArraySize / ReadMapSize /
+   ReadBinarySize) never stand in front of an ext-family value gets exactly the memory reader's answers —
+   whatever the chunk size >= 8; in particular every document without ext values read without rewinding *)
+Theorem lookahead_nonseekable_equals_memory K data narrow widen fuel o ops :
+  (8 <= K)%nat -> fits_streamoff data -> bytes_ok data -> (length data < fuel)%nat ->
+  forallb (rop_ok data) ops = true ->
+  lookahead_free narrow widen data o ops data = true ->
+  mps_run_bsr narrow widen K (stream_of data false) fuel o ops = Ok (str_run narrow widen data o ops).
+Proof.
+  intros HK Hl Hb Hf Hok Hla. apply seq_nonseekable_outside; try assumption.
+  unfold nonseek_ok. assert (HK0' : (0 < K)%nat) by lia.
+  destruct (new_rel K HK0' data Hl false) as [HR Hs]. rewrite <- (st_data data) in HR.
+  apply (lookahead_free_steps K data HK Hl Hb narrow widen fuel o Hf ops data _ (suffix_data data) Hla HR Hs).
+Qed.
+
+Example lookahead_examples :
+  (* a document without ext values, every kind of call, across the chunks of K = 8 *)
+  lookahead_free no_narrow id_widen straddle_doc skip_all
+    [RdType; RdStr; RdStr; RdInt (mkIty false 16); RdArr; RdInt u8t; RdNil; RdType; RdF64] straddle_doc = true /\
+  mps_run_bsr no_narrow id_widen 8 (stream_of straddle_doc false) 100 skip_all
+    [RdType; RdStr; RdStr; RdInt (mkIty false 16); RdArr; RdInt u8t; RdNil; RdType; RdF64] =
+    Ok [AOkAt (VType TStr) 0; AOkAt (VBytes [0x61; 0x62; 0x63]) 4; AOkAt (VBytes [1; 2; 3; 4; 5; 6; 7; 8; 9; 10]) 16;
+        AOkAt (VInt 256) 19; AOkAt (VNum 2) 20; AOkAt (VInt 1) 21; AOkAt VUnit 22; AOkAt (VType TFloat) 22;
+        AOkAt (VNum 0x3F800000) 27] /\
+  (* a look-ahead call in front of a timestamp: not in the class (and the header straddles a chunk: InputOutputError) *)
+  lookahead_free no_narrow id_widen ns_ts_doc throw_all (nils 7 ++ [RdTs]) ns_ts_doc = false.
+Proof. vm_compute. repeat split; reflexivity. Qed.
+
+(* ---- adaptive clients that only read and skip forward ---- *)
+Fixpoint client_forward {A} (c : client A) : Prop :=
+  match c with
+  | CRet _ => True
+  | CCall op k => forward_op op = true /\ forall a, client_forward (k a)
+  end.
+
+Lemma no_setpos_forward_client narrow widen fuel o {A} : forall (c : client A) t, client_forward c ->
+  no_setpos (mps_client narrow widen fuel o c t).
+Proof.
+  induction c as [a|op k IH]; intros t H; [exact I|]. cbn [client_forward] in H. destruct H as [H1 H2].
+  cbn [mps_client]. apply no_setpos_pbind; [apply no_setpos_forward_op; exact H1|].
+  intros [v| |e| |]; try exact I; apply no_setpos_get_pos; intros p; apply IH; apply H2.
+Qed.
+
+Lemma forward_client_seeks_ok narrow widen data o {A} : forall (c : client A) d, client_forward c ->
+  client_seeks_ok narrow widen data o c d = true.
+Proof.
+  induction c as [a|op k IH]; intros d H; [reflexivity|]. cbn [client_forward] in H. destruct H as [H1 H2].
+  cbn [client_seeks_ok]. apply andb_true_iff. split.
+  - destruct op; try reflexivity; discriminate H1.
+  - destruct (str_op narrow widen data o op d) as [v r|r|e|]; try reflexivity; apply IH; apply H2.
+Qed.
+
+(* every adaptive client that only issues forward_op calls (decisions may depend on everything it has seen) gets
+   from a non-seekable stream the transcript and the result it gets from memory *)
+Theorem forward_client_nonseekable_equals_memory K data narrow widen fuel o (A : Type) (c : client A) :
+  (8 <= K)%nat -> fits_streamoff data -> bytes_ok data -> (length data < fuel)%nat ->
+  client_forward c ->
+  mps_client_bsr narrow widen K (stream_of data false) fuel o c = Ok (str_client_run narrow widen data o c).
+Proof.
+  intros HK Hl Hb Hf Hfw. apply client_nonseekable_outside; try assumption.
+  - apply forward_client_seeks_ok. exact Hfw.
+  - unfold nonseek_client_ok. apply no_setpos_seek_free. apply no_setpos_forward_client. exact Hfw.
 Qed.
